@@ -418,6 +418,8 @@ class GenExec(Exec):
         if n == "bytes" and args and (isinstance(args[0], ZSeq) or isinstance(args[0], MaybeV)):
             a = self.none_use(args[0], "bytes()") if isinstance(args[0], MaybeV) else args[0]
             return ZSeq(a.t, a.elem, a.nonneg, mutable=False)          # an immutable copy with the same contents
+        if n in ("tuple", "len") and args and isinstance(args[0], Ref) and type(self.heap.get(args[0].id)).__name__ == "AbsList":
+            return args[0] if n == "tuple" else self.heap[args[0].id].count
         if n in ("tuple", "len") and args and isinstance(args[0], Ref) and type(self.heap.get(args[0].id)).__name__ == "PyList":
             return args[0] if n == "tuple" else I(len(self.heap[args[0].id].items))
         if n == "tuple" and args:
@@ -471,12 +473,34 @@ class GenExec(Exec):
             base = self.ev(node.value, fr)
             if isinstance(base, Ref) and type(self.heap.get(base.id)).__name__ == "PyList":
                 return BuiltinV("pylist.append", recv=base)
+            if isinstance(base, Ref) and type(self.heap.get(base.id)).__name__ == "AbsList":
+                return BuiltinV("abslist.append", recv=base)
             if isinstance(base, Ref) and isinstance(self.heap.get(base.id), (EmptyList, ZSeq)):
                 return BuiltinV("zlist.append", recv=base)
         return super().ev_Attribute(node, fr)
 
     # ---- calls: abstract writer / reader, nested generated classes
     def call(self, f, args, kwargs, fr, node):
+        if isinstance(f, BuiltinV) and f.name == "abslist.append":
+            from .gen_rt import leaf_value
+            al = self.heap[f.recv.id]
+            x = args[0]
+            for leaf in al.info["layout"]:
+                if leaf[0] is None:
+                    continue
+                got = leaf_value(self, x, leaf[0])
+                want = al.info["A"][leaf[0]](al.count)
+                if got is None:
+                    ok = z3.BoolVal(False)
+                elif z3.is_bool(want) and is_int(got):
+                    ok = (got != 0) == want
+                else:
+                    ok = got == want
+                self.oblige("roundtrip", ok, f"{al.info['key'][1]}[i].{leaf[0] or 'item'}",
+                            {"why": f"element leaf {leaf[0] or 'item'} read back differs from the one written", "property": "C01"})
+                self.assume(ok)
+            al.count = simp(al.count + 1)
+            return NONE
         if isinstance(f, BuiltinV) and f.name == "pylist.append":
             self.heap[f.recv.id].items.append(args[0])
             return NONE
@@ -716,6 +740,23 @@ class GenExec(Exec):
             self.assume(t)
 
     def havoc_loop(self, names, objs, elem_only, fr):
+        if getattr(self, "rt", None) is not None:
+            # round-trip mode: the concrete-structured reader and the abstract result list
+            for nm in sorted(names):
+                v = fr.env.get(nm)
+                if is_int(v):
+                    fr.env[nm] = self.fresh(nm)
+                elif is_bool(v):
+                    fr.env[nm] = self.fresh(nm, BOOL)
+            self.rt.pos = self.fresh("rtpos")
+            self.rt.cs = self.fresh("rtcs")
+            self.rt.mode = self.fresh("rtmode", BOOL)
+            for nm in sorted(objs):
+                v = fr.env.get(nm)
+                o = self.heap.get(v.id) if isinstance(v, Ref) else None
+                if type(o).__name__ == "AbsList":
+                    o.count = self.fresh("count_" + nm)
+            return
         # generated loops only modify: locals, the writer's data, the reader's state, result lists
         for nm in sorted(names):
             if nm in fr.env:
